@@ -1,10 +1,10 @@
 SPECIFICATION GSpec
 CONSTANTS
   Procs = {"c1"}
-  Names = {"a", "b"}
-  MaxCalls = 3
-  MaxAge = 2
-  MaxReap = 2
+  Names = {"a"}
+  MaxCalls = 2
+  MaxAge = 1
+  MaxReap = 1
   Faults = TRUE
   SplitGet = FALSE
 INVARIANTS TypeOK OneTransportPerName CallersShareTheCachedTransport SameNameSameTransport IdentitiesNeverReused NeverHalfInitialised BoundedRetries OnlyAgedAreReaped Emit
